@@ -117,6 +117,12 @@ class Goal:
         return self.target
 
 
+class Truthy:
+    """an object that converts to True (what numpy.bool_ looks like to a strict bool extraction)"""
+    def __bool__(self):
+        return True
+
+
 def run_planner(ox, case, as_false, fault_call=None):
     py = case["world"]["py"]
     kit = Kit(ox, py)
@@ -151,6 +157,20 @@ def run_planner(ox, case, as_false, fault_call=None):
                 return None
             if k == "nonbool":
                 return [1, 2, 3]
+            if k == "tuple":
+                return (False, "in collision")
+            if k == "int1":
+                return 1
+            if k == "float":
+                return 1.0
+            if k == "obj":
+                return object()
+            if k == "zero":
+                return 0
+            if k == "empty":
+                return ""
+            if k == "npbool":
+                return Truthy()
             return "yes"
         return ans
 
